@@ -46,7 +46,7 @@ def rows_at(res, key):
 
 
 def t4_markers(log):
-    return [m for m in markers(log) if not m.endswith(":params")]
+    return [m for m in markers(log) if not m.endswith(":params") and not m.endswith(":finish")]
 
 
 def alone_case(case, triple):
